@@ -650,3 +650,112 @@ def gen_case_siblings(rng):
         kids.append(["c", 2, {}, [node]] if w else node)
     case["tree"] = ["c", 0, {}, kids]
     return case
+
+
+def gen_case_recursive(rng):
+    """key + keyref declared on a RECURSIVE element (c1 inside c1 inside c1 ...): the same constraints are active at several
+    depths at once; references at outer levels are drawn from the keys of inner levels and vice versa (the key table of an
+    inner scope is handed up to the enclosing scopes, never down).  Single chains (60%) and chains with sibling branches."""
+    nl, na, nc = 3, 3, 3
+    t = rng.choice("ssidt")
+    lt = [t, t, t]
+    case = {"ltypes": lt, "lnil": [False] * nl, "atypes": list("sid"), "nc": nc, "ics": []}
+    case["ics"].append({"elem": 1, "kind": rng.choice("kku"), "id": 0, "refer": None, "sel": "l0", "fields": ["."]})
+    ref = {"elem": 1, "kind": "r", "id": 1, "refer": 0, "sel": "l1", "fields": ["."]}
+    if rng.random() < 0.5:
+        case["ics"].append(ref)
+    else:
+        case["ics"].insert(0, ref)
+    groups = POOL[t]
+    depth = rng.randrange(2, 5)
+    chain_only = rng.random() < 0.6
+    free = list(range(len(groups)))
+    rng.shuffle(free)
+    levels = []          # keys (group indexes) per level of the main chain
+    for d in range(depth):
+        k = rng.randrange(0, 3)
+        ks = [free.pop() for _ in range(min(k, len(free)))]
+        if ks == [] and free and rng.random() < 0.5:
+            ks = [free.pop()]
+        if levels and rng.random() < 0.15:
+            ks.append(rng.choice([g for lv in levels for g in lv] or ks or [0]))     # the same key at two levels
+        levels.append(ks)
+    allkeys = [g for lv in levels for g in lv]
+
+    def refs_for(d):
+        out = []
+        for _ in range(rng.randrange(0, 3)):
+            r = rng.random()
+            inner = [g for lv in levels[d:] for g in lv]
+            outer = [g for lv in levels[:d] for g in lv]
+            if r < 0.55 and inner:
+                g = rng.choice(inner)              # resolvable: this level or deeper
+            elif r < 0.8 and outer:
+                g = rng.choice(outer)              # only an enclosing level has it: must be reported
+            elif allkeys and r < 0.9:
+                g = rng.choice(allkeys)
+            else:
+                g = rng.randrange(len(groups))
+            out.append(["l", 1, {}, rng.choice(groups[g])])
+        return out
+
+    def build(d):
+        inner = [["l", 0, {}, rng.choice(groups[g])] for g in levels[d]] + refs_for(d)
+        if d + 1 < depth:
+            nxt = build(d + 1)
+            inner.append(["c", 2, {}, [nxt]] if rng.random() < 0.25 else nxt)
+        if not chain_only and rng.random() < 0.5:
+            # a sibling branch with keys of its own (the F28/F29 class when it sits at the depth of another scope)
+            sk = [["l", 0, {}, rng.choice(groups[rng.randrange(len(groups))])] for _ in range(rng.randrange(1, 3))]
+            inner.append(["c", 1, {}, sk])
+        rng.shuffle(inner)
+        return ["c", 1, {}, inner]
+
+    top = build(0)
+    case["tree"] = ["c", 0, {}, [top] + ([["c", 1, {}, [["l", 0, {}, rng.choice(groups[0])]]]] if (not chain_only and rng.random() < 0.3) else [])]
+    return case
+
+
+def gen_case_fieldcard(rng):
+    """fields of the shape child-step(s)/@attr and child-step(s)/child with 0 / 1 / 2+ matching nodes per selected element:
+    0 -> absent (a key must report it, a unique must not), 1 -> the value, 2+ -> clause 3 is violated and at least one
+    IC_FieldMultipleMatch must be reported"""
+    nl, na, nc = 3, 3, 3
+    t = rng.choice("ssid")
+    case = {"ltypes": [t, t, t], "lnil": [False] * nl, "atypes": [t, t, t], "nc": nc, "ics": []}
+    shape = rng.choice(["c2/@t0", "c2/@t0", "c2/l0", "l0", "*/@t0", "c2/c2/@t1"])
+    kind = rng.choice("kuk")
+    fields = [shape]
+    if rng.random() < 0.3:
+        fields.append("@t2")
+    case["ics"].append({"elem": 0, "kind": kind, "id": 0, "refer": None, "sel": "c1", "fields": fields})
+    groups = POOL[t]
+    free = list(range(len(groups)))
+    rng.shuffle(free)
+
+    def val():
+        g = free.pop() if free and rng.random() < 0.85 else rng.randrange(len(groups))
+        return rng.choice(groups[g])
+
+    kids = []
+    nsel = rng.randrange(1, 4)
+    multi_at = rng.randrange(nsel) if rng.random() < 0.7 else None
+    for i in range(nsel):
+        k = rng.choice([2, 2, 3]) if i == multi_at else rng.choice([0, 1, 1, 1])
+        inner = []
+        for _ in range(k):
+            if shape in ("c2/@t0", "*/@t0"):
+                inner.append(["c", 2, {0: val()}, []])
+            elif shape == "c2/l0":
+                inner.append(["c", 2, {}, [["l", 0, {}, val()]]])
+            elif shape == "l0":
+                inner.append(["l", 0, {}, val()])
+            else:
+                inner.append(["c", 2, {}, [["c", 2, {1: val()}, []]]])
+        if shape != "l0" and rng.random() < 0.3:
+            inner.append(["c", 2, {}, []])          # a step match without the attribute / child
+        rng.shuffle(inner)
+        attrs = {2: val()} if len(fields) > 1 and rng.random() < 0.9 else {}
+        kids.append(["c", 1, attrs, inner])
+    case["tree"] = ["c", 0, {}, kids]
+    return case
